@@ -52,17 +52,15 @@ theorem painted_footer (d : DrawIn) (hf : d.footerRows ≠ 0) (y : Int) (hz : Bo
   unfold rowNumber b2i
   have ha : ¬ (d.headerRows ≠ 0 ∧ y < (d.headerRows : Int) + (if hz then 1 else 0)) := by
     intro h; split at h <;> omega
-  have hb : d.footerRows ≠ 0 ∧ y ≥ (gridHeight d : Int) - (d.footerRows : Int) - (if hz then 1 else 0) := by
-    refine ⟨hf, ?_⟩; split <;> omega
+  have hb : d.footerRows ≠ 0 ∧ y ≥ (gridHeight d : Int) - (d.footerRows : Int) := ⟨hf, by omega⟩
   simp [ha, hb]
 
-/-- **painted_body_lines_partial.**  A line between two body rows of the fragment shows the grid line
-between the same two rows — *except* the line between the last two body rows when a footer is
-repeated: `row_number` tests `y >= grid_height - footer_rows - int(horizontal)` and takes that line for
-a footer line.  Full statement (`y < grid_height − footer_rows`) is FALSE of the code: see
-`Witness.C10.footer_line_off_by_one` (finding `collapsed-footer-line-off-by-one`). -/
-theorem painted_body_lines_partial (d : DrawIn) (y : Int) (h1 : (d.headerRows : Int) < y)
-    (h2 : y < (gridHeight d : Int) - d.footerRows - 1 ∨ (d.footerRows = 0 ∧ y ≤ gridHeight d)) :
+/-- **painted_body_lines** (full strength since the repair 4d1447f; was `painted_body_lines_partial`,
+finding `collapsed-footer-line-off-by-one`).  Every line between two body rows of the fragment — and
+the line under the last body row when no footer is repeated — shows the grid line between the same
+two rows of the whole table. -/
+theorem painted_body_lines (d : DrawIn) (y : Int) (h1 : (d.headerRows : Int) < y)
+    (h2 : y < (gridHeight d : Int) - d.footerRows ∨ d.footerRows = 0) :
     rowNumber d y true = y + bodyOffset d := by
   unfold rowNumber b2i
   simp only [if_true]
